@@ -31,6 +31,7 @@ pub mod merkle;
 pub mod plonk;
 pub mod plonkv;
 pub mod transcript;
+pub mod recursion;
 pub mod smt;
 pub mod stark;
 
